@@ -284,8 +284,11 @@ def run(ctx, rep):
            "set_expiry no longer stores Timeout(timeout)", fse.loc)
     ftm = ctx.func("rpyc.utils.helpers.timed.__call__")
     body = [s for s in ftm.node.body if not (isinstance(s, ast.Expr) and isinstance(s.value, ast.Constant))]
-    okt = len(body) == 3 and isinstance(body[0], ast.Assign) and A.src(body[0].value) == "self.proxy(*args, **kwargs)" and \
-        A.norm(body[1]) == "%s.set_expiry(self.timeout)" % body[0].targets[0].id and \
+    rcv = A.params(ftm.node)[0]
+    va_ = ftm.node.args.vararg.arg if ftm.node.args.vararg else "?"
+    kw_ = ftm.node.args.kwarg.arg if ftm.node.args.kwarg else "?"
+    okt = len(body) == 3 and isinstance(body[0], ast.Assign) and A.src(body[0].value) == "%s.proxy(*%s, **%s)" % (rcv, va_, kw_) and \
+        A.norm(body[1]) == "%s.set_expiry(%s.timeout)" % (body[0].targets[0].id, rcv) and \
         isinstance(body[2], ast.Return) and A.src(body[2].value) == body[0].targets[0].id
     rep.ob("R15.6", "timed.__call__: starts the call, sets the expiry on that result, returns it", okt,
            "res = self.proxy(*args, **kwargs); res.set_expiry(self.timeout); return res" if okt else "timed.__call__ changed", ftm.loc)
